@@ -90,7 +90,14 @@ func newCaseWriter(dir, family, corr, typ, chk string, perFile int, rep *Report)
 }
 
 // add a case; nontrivial says whether it counts for distinct_nontrivial
+// goOnly: while set, cases are not handed to the model (inputs whose evaluation inside Coq costs minutes:
+// payloads of 32 KiB and more under the hash model, nesting of a hundred levels); the Go oracles still run
+var goOnly bool
+
 func (w *CaseWriter) add(term string, desc string, nontrivial bool) {
+	if goOnly {
+		return
+	}
 	h := sha256.Sum256([]byte(term))
 	if w.seen[h] {
 		return // duplicates are not re-evaluated
